@@ -258,7 +258,13 @@ func (c09) Exec(c *core.Case) (out *core.Outcome) {
 		if op.Key >= len(p.Keys) {
 			continue
 		}
-		tick(e, r)
+		if r.IntN(3) != 0 {
+			// a third of the operations follow their predecessor within the same simulated millisecond:
+			// time-derived version ids must still order by creation
+			tick(e, r)
+		} else {
+			o.Probe("same_millisecond_as_previous_operation")
+		}
 		if err := e.Heal(); err != nil {
 			return inconclusive(c, "heal: %v", err)
 		}
